@@ -64,23 +64,7 @@ func (h *History) Add(form Form) {
 	h.forms = append(h.forms, form.Dup())
 	if h.max <= len(h.forms) {
 		h.forms = h.forms[len(h.forms)-h.limit:]
-		tmp := fmt.Sprintf("%s.tmp", h.filename)
-		f, err := os.OpenFile(tmp, os.O_TRUNC|os.O_CREATE|os.O_WRONLY, 0644)
-		if err != nil {
-			panic(err)
-		}
-		defer func() { _ = f.Close() }()
-		for _, frm := range h.forms {
-			// Write each line separately to avoid excessive memory use if the
-			// history is long.
-			if _, err = f.Write(frm.TabAppend(nil)); err != nil {
-				panic(err)
-			}
-		}
-		_ = f.Close()
-		if err := os.Rename(tmp, h.filename); err != nil {
-			panic(err)
-		}
+		h.rewrite()
 	} else {
 		f, err := os.OpenFile(h.filename, os.O_APPEND|os.O_CREATE|os.O_WRONLY, 0644)
 		defer func() { _ = f.Close() }()
@@ -96,14 +80,28 @@ func (h *History) Add(form Form) {
 // Clear the stash entries in the range specified..
 func (h *History) Clear(start, end int) {
 	h.clear(start, end)
-	f, err := os.OpenFile(h.filename, os.O_TRUNC|os.O_APPEND|os.O_CREATE|os.O_WRONLY, 0644)
+	h.rewrite()
+}
+
+// rewrite the history file with the forms in memory. The forms are written to
+// a temporary file that then replaces the history file so the history file
+// is never left truncated or partially written.
+func (h *History) rewrite() {
+	tmp := fmt.Sprintf("%s.tmp", h.filename)
+	f, err := os.OpenFile(tmp, os.O_TRUNC|os.O_CREATE|os.O_WRONLY, 0644)
 	if err != nil {
 		panic(err)
 	}
 	defer func() { _ = f.Close() }()
 	for _, frm := range h.forms {
+		// Write each line separately to avoid excessive memory use if the
+		// history is long.
 		if _, err = f.Write(frm.TabAppend(nil)); err != nil {
 			panic(err)
 		}
+	}
+	_ = f.Close()
+	if err := os.Rename(tmp, h.filename); err != nil {
+		panic(err)
 	}
 }
